@@ -14,41 +14,32 @@ Theorem C09_contains_search : forall l key is_end r,
 Proof. exact search_contains. Qed.
 Print Assumptions C09_contains_search.
 
-(* LocateKey / LocateEndKey (findRegionByKey) from ANY cache state, with ANY PD whose answer to "region of k" holds k *)
+(* LocateKey / LocateEndKey (findRegionByKey) from ANY cache state, with ANY PD whose answer to "region of k" holds k;
+   the end-key lookup of the empty key (the end of the key space) included: it returns a region with unbounded end
+   (loadLastRegion / the entry with the greatest start key, fix 0dbaf7e) *)
 Theorem C09_contains : forall pd budget fuel t c key is_end r c' t',
-  pd_get_sound pd -> pd_prev_sound pd -> (is_end = true -> key <> []) ->
+  pd_get_sound pd -> pd_prev_sound pd ->
   find_region_by_key pd budget fuel t c key is_end = (Ok r, c', t') ->
   (if is_end then r_contains_end r key else r_contains r key) = true.
 Proof. intros pd budget fuel t c key is_end r c' t' H1 H2. exact (find_region_by_key_holds pd budget H1 H2 fuel t c key is_end r c' t'). Qed.
 Print Assumptions C09_contains.
 
-(* F08: the end-key lookup of the empty key (the end of the key space) returns a region that does not contain it
-   by end — from a cold and from a warm cache (PD and the cache hold the two regions [-inf,"b") ["b",+inf)) *)
+(* regression of F08 (fixed by 0dbaf7e): with the two regions [-inf,"b") ["b",+inf) the end-key lookup of the empty key
+   returns the last region — cold cache (scan from PD) and warm cache (greatest start key) *)
 Definition f08_first := mkDesc 1 [] [98] 1 1 [(1, 1)] (1, 1) None.
 Definition f08_last := mkDesc 2 [98] [] 1 1 [(2, 1)] (2, 1) None.
 Definition f08_pd (t : nat) (q : pd_req) : pd_ans :=
   match q with
   | ReqGet k => PdOne (Some (if lex_ltb k [98] then f08_first else f08_last))
   | ReqPrev k => PdOne (Some f08_first)
+  | ReqScan s _ _ => PdMany (if lex_ltb s [98] then [f08_first; f08_last] else [f08_last])
   | _ => PdOne None
   end.
 Definition f08_warm : cache := insert_all empty_cache [new_region f08_first; new_region f08_last].
-Theorem C09_contains_end_refuted :
-  exists pd c, pd_get_sound pd /\ (forall t d, pd t (ReqPrev [98]) = PdOne (Some d) -> contains_by_end (d_start d) (d_end d) [98] = true) /\
-    (c = empty_cache \/ c = f08_warm) /\
-    exists r c' t', find_region_by_key pd 5 5 0 c [] true = (Ok r, c', t') /\ r_contains_end r [] = false /\ r_id r = 1.
-Proof.
-  exists f08_pd, f08_warm. split; [|split; [|split; [right; reflexivity|]]].
-  - intros t k d H. cbn [f08_pd] in H. injection H as <-. destruct (lex_ltb k [98]) eqn:E.
-    + apply contains_spec. split; [apply leb_nil_l|right; exact E].
-    + apply contains_spec. split; [apply ltb_false_leb; exact E|left; reflexivity].
-  - intros t d H. injection H as <-. reflexivity.
-  - vm_compute. eexists _, _, _. split; [reflexivity|]. split; reflexivity.
-Qed.
-Print Assumptions C09_contains_end_refuted.
-Example C09_contains_end_refuted_cold :
-  exists r c' t', find_region_by_key f08_pd 5 5 0 empty_cache [] true = (Ok r, c', t') /\ r_contains_end r [] = false.
-Proof. vm_compute. eexists _, _, _. split; reflexivity. Qed.
+Example C09_contains_end_of_keyspace :
+  (exists r c' t', find_region_by_key f08_pd 5 5 0 empty_cache [] true = (Ok r, c', t') /\ r_id r = 2 /\ r_contains_end r [] = true) /\
+  (exists r c' t', find_region_by_key f08_pd 5 5 0 f08_warm [] true = (Ok r, c', t') /\ r_id r = 2 /\ r_contains_end r [] = true /\ t' = 0%nat).
+Proof. split; vm_compute; eexists _, _, _; repeat split. Qed.
 
 (* LocateRegionByID returns the region asked for *)
 Theorem C09_contains_by_id : forall pd budget t c id r c' t',
@@ -216,7 +207,7 @@ Theorem C09_codec_preserves_containment : forall s e k s' e',
 Proof. exact dec_contains. Qed.
 Print Assumptions C09_codec_preserves_containment.
 Theorem C09_contains_codec : forall raw budget fuel t c key is_end r c' t',
-  raw_get_sound raw -> raw_prev_sound raw -> (is_end = true -> key <> []) ->
+  raw_get_sound raw -> raw_prev_sound raw ->
   find_region_by_key (codec_pd raw) budget fuel t c key is_end = (Ok r, c', t') ->
   (if is_end then r_contains_end r key else r_contains r key) = true.
 Proof.
